@@ -135,7 +135,7 @@ func digestCase(c *ev.Case) {
 	h := ev.Mix(ev.HashBytes(data), uint64(L))
 	in := mkInp(data)
 	checked := 0
-	for _, d := range digests {
+	for di, d := range digests {
 		want := refDigest(d.newH, data)
 		if c.Logging() {
 			c.Logf("call %s(%s); crypto -> %s", d.name, clip(data), want)
@@ -185,6 +185,10 @@ func digestCase(c *ev.Case) {
 				{"chunk(1)", &chunkReader{data: in.b, k: 1}},
 				{fmt.Sprintf("chunk(%d)+zero-reads", k), &chunkReader{data: in.b, k: k, zeroReads: true}},
 			}
+			// standard readers handed over as they are, part of them already consumed: their
+			// Size / Len / Seek / N describe more than (or something else than) what remains
+			readers = append(readers, consumedReader(rng, in.b, (c.Index+di)%5))
+			c.Add("stream_partly_consumed_standard_reader", 1)
 			for ri, r := range readers {
 				var got []byte
 				var err error
@@ -229,6 +233,13 @@ func digestCase(c *ev.Case) {
 			kl = rng.Range(0, 200)
 		}
 		key := rng.Bytes(kl)
+		if rng.Chance(1, 4) { // a key that reads as hex digits / base64 is used as it is
+			alpha := rng.PickStr("0123456789abcdef", "0123456789ABCDEF", "ABCDEFGHIJKLMNOPQRSTUVWXYZabcdefghijklmnopqrstuvwxyz0123456789+/=")
+			for i := range key {
+				key[i] = alpha[rng.Intn(len(alpha))]
+			}
+			c.Add("hmac_key_reads_as_an_encoding", 1)
+		}
 		kin := mkInp(key)
 		h = ev.Mix(h, ev.HashBytes(key), ev.HashString(d.name))
 		m := hmac.New(d.newH, key)
@@ -281,6 +292,47 @@ func digestCase(c *ev.Case) {
 	c.Max("digest_max_len", int64(L))
 	if c.WantSample() {
 		c.Sample(fmt.Sprintf("digest: %d-byte input %s, %d results compared with crypto/* (8 one-shot digests x 8 forms, 6 stream helpers x 6 readers, 3 HMACs x 10 forms)", L, clip(data), checked))
+	}
+}
+
+// consumedReader: a standard-library reader from which exactly data remains to be read.
+func consumedReader(rng *ev.Rand, data []byte, kind int) struct {
+	name string
+	r    io.Reader
+} {
+	type rd = struct {
+		name string
+		r    io.Reader
+	}
+	pre := rng.Bytes(rng.Pick(1, 7, 64, 300))
+	all := append(append([]byte{}, pre...), data...)
+	skip := func(r io.Reader) {
+		if _, err := io.ReadFull(r, make([]byte, len(pre))); err != nil {
+			panic("harness: " + err.Error())
+		}
+	}
+	switch kind {
+	case 0:
+		r := bytes.NewReader(all)
+		skip(r)
+		return rd{fmt.Sprintf("*bytes.Reader after %d consumed bytes", len(pre)), r}
+	case 1:
+		r := strings.NewReader(string(all))
+		skip(r)
+		return rd{fmt.Sprintf("*strings.Reader after %d consumed bytes", len(pre)), r}
+	case 2:
+		r := bytes.NewBuffer(all)
+		skip(r)
+		return rd{fmt.Sprintf("*bytes.Buffer after %d consumed bytes", len(pre)), r}
+	case 3:
+		back := append(append(rng.Bytes(3), all...), rng.Bytes(11)...)
+		r := io.NewSectionReader(bytes.NewReader(back), 3, int64(len(all)))
+		if _, err := r.Seek(int64(len(pre)), io.SeekStart); err != nil {
+			panic("harness: " + err.Error())
+		}
+		return rd{fmt.Sprintf("*io.SectionReader positioned %d bytes into its section", len(pre)), r}
+	default:
+		return rd{fmt.Sprintf("*io.LimitedReader over a reader with %d more bytes", len(pre)), &io.LimitedReader{R: bytes.NewReader(append(append([]byte{}, data...), pre...)), N: int64(len(data))}}
 	}
 }
 
